@@ -918,3 +918,46 @@ V("c05-default-registry-under-other-test", "C05", "break", "R05.10", "encrypt_js
   "jwe.py", "    elif registry is None:\n        registry = default_registry\n\n    for recipient in obj.recipients:", "    elif sender_key is None:\n        registry = default_registry\n\n    for recipient in obj.recipients:")
 V("c19-to-bytes-encode-args-swapped", "C19", "break", "R19.5", "to_bytes passes (errors, charset) to str.encode",
   "util.py", "        return x.encode(charset, errors)", "        return x.encode(errors, charset)")
+# ------------------------------------------------------------------------------------------------ from the third mutation family and the third refactoring batch
+V("c04-unprotected-passed-twice", "C04", "break", "R04.11", "extract_flattened_json hands the protected header on as the unprotected one",
+  "rfc7516/json.py", "    obj = FlattenedJSONEncryption(protected, None, unprotected, aad)", "    obj = FlattenedJSONEncryption(protected, None, protected, aad)")
+V("c04-member-filled-from-sibling", "C04", "break", "R04.17", "the unprotected member is filled from the protected header",
+  "rfc7516/json.py", "        data[\"unprotected\"] = obj.unprotected", "        data[\"unprotected\"] = obj.protected")
+V("c04-member-guarded-by-sibling", "C04", "break", "R04.17", "the unprotected member is written when there is a protected header",
+  "rfc7516/json.py", "    if obj.unprotected:\n        data[\"unprotected\"] = obj.unprotected", "    if obj.protected:\n        data[\"unprotected\"] = obj.unprotected")
+V("c04-empty-ciphertext-refused", "C04", "break", "R04.18", "extract_compact refuses an empty ciphertext segment",
+  "rfc7516/compact.py", "    obj = CompactEncryption(protected)\n", "    if not ciphertext_segment:\n        raise DecodeError(\"Missing ciphertext\")\n    obj = CompactEncryption(protected)\n")
+V("c04-required-member-conditional", "C04", "break", "R04.16", "the ciphertext member is written only when it is not empty",
+  "rfc7516/json.py", "        \"ciphertext\": to_str(obj.base64_segments[\"ciphertext\"]),\n        \"tag\": to_str(obj.base64_segments[\"tag\"]),\n    }\n",
+  "        \"tag\": to_str(obj.base64_segments[\"tag\"]),\n    }\n    if obj.base64_segments[\"ciphertext\"]:\n        data[\"ciphertext\"] = to_str(obj.base64_segments[\"ciphertext\"])\n")
+V("c14-guess-key-given-the-header-dict", "C14", "break", "R14.2", "rfc7797 serialize_json hands the header dict to guess_key instead of the member object",
+  "rfc7797/json.py", "    key = guess_key(private_key, _member, True)", "    key = guess_key(private_key, headers, True)")
+V("c12-as-bytes-none-exports-public-flag", "C12", "break", "R12.7", "as_bytes(private=None) serialises the raw key with the flag False",
+  "rfc7517/pem.py", "        return dump_pem_key(key.raw_value, encoding, key.is_private, password)", "        return dump_pem_key(key.raw_value, encoding, False, password)")
+V("c13-thumbprint-fast-path-unsorted", "C13", "break", "R13.2", "thumbprint of a key that holds exactly the listed members dumps the dict as it is",
+  "rfc7638/__init__.py", "    data = OrderedDict()\n    for k in sorted_fields:\n        data[k] = dict_value[k]\n",
+  "    if len(dict_value) == len(fields):\n        data = dict_value\n    else:\n        data = OrderedDict()\n        for k in sorted_fields:\n            data[k] = dict_value[k]\n")
+V("c14-get-by-kid-last-match", "C14", "break", "R14.1", "get_by_kid returns the last key with the kid, not the first",
+  "_keys.py", "        for key in self.keys:\n            if key.kid == kid:\n                return key\n        raise InvalidKeyIdError", "        for key in reversed(self.keys):\n            if key.kid == kid:\n                return key\n        raise InvalidKeyIdError")
+V("c14-pick-random-ignores-types-when-single", "C14", "break", "R14.4", "pick_random_key skips the key-type filter for a set of one key",
+  "_keys.py", "        if key_types:\n            keys = [k for k in self.keys if k.key_type in key_types]", "        if key_types and len(self.keys) > 1:\n            keys = [k for k in self.keys if k.key_type in key_types]")
+V("c15-registry-merge-into-shared-default", "C15", "break", "R15.5", "JWSRegistry merges the caller's table into the class-level default table",
+  "rfc7515/registry.py", "        self.header_registry: HeaderRegistryDict = {}\n        self.header_registry.update(self.default_header_registry)", "        self.header_registry: HeaderRegistryDict = self.default_header_registry")
+V("c15-list-validator-skips-empty-members", "C15", "break", "R15.3", "is_list_str looks at truthy members only",
+  "registry.py", "    if not all(isinstance(value, str) for value in values):", "    if not all(isinstance(value, str) for value in values if value):")
+V("c11-registry-validation-skips-null", "C11", "break", "R11.4", "validate_dict_key_registry validates a member only when its value is not None",
+  "rfc7517/models.py", "            if k in dict_key:\n                try:\n                    registry[k].validate(dict_key[k])", "            if dict_key.get(k) is not None:\n                try:\n                    registry[k].validate(dict_key[k])")
+V("c13-benign-thumbprint-dict-comprehension", "C13", "benign", "", "thumbprint members through a dict comprehension over sorted(fields)",
+  "rfc7638/__init__.py", "    sorted_fields = sorted(fields)\n\n    data = OrderedDict()\n    for k in sorted_fields:\n        data[k] = dict_value[k]\n", "    data = {k: dict_value[k] for k in sorted(fields)}\n")
+V("c14-benign-get-by-kid-next", "C14", "benign", "", "get_by_kid through next(generator, None)",
+  "_keys.py", "        for key in self.keys:\n            if key.kid == kid:\n                return key\n        raise InvalidKeyIdError(f'No key for kid: \"{kid}\"')",
+  "        found = next((key for key in self.keys if key.kid == kid), None)\n        if found is None:\n            raise InvalidKeyIdError(f'No key for kid: \"{kid}\"')\n        return found")
+V("c12-benign-as-bytes-single-exit", "C12", "benign", "", "as_bytes selects (key, flag) and calls dump_pem_key once",
+  "rfc7517/pem.py", "        if private is True:\n            return dump_pem_key(key.private_key, encoding, private, password)\n        elif private is False:\n            return dump_pem_key(key.public_key, encoding, private, password)\n        return dump_pem_key(key.raw_value, encoding, key.is_private, password)",
+  "        if private is True:\n            native_key, is_private = key.private_key, True\n        elif private is False:\n            native_key, is_private = key.public_key, False\n        else:\n            native_key, is_private = key.raw_value, key.is_private\n        return dump_pem_key(native_key, encoding, is_private, password)")
+V("c15-benign-list-validator-merged", "C15", "benign", "", "is_list_str with one merged condition",
+  "registry.py", "    if not isinstance(values, list):\n        raise ValueError(\"must be a list[str]\")\n\n    if not all(isinstance(value, str) for value in values):\n        raise ValueError(\"must be a list[str]\")",
+  "    if not isinstance(values, list) or any(not isinstance(value, str) for value in values):\n        raise ValueError(\"must be a list[str]\")")
+V("c08-benign-concat-kdf-selector", "C08", "benign", "", "AlgorithmID member chosen through a selector constant, tag part through a conditional expression",
+  "rfc7518/derive_key.py", "    if key_size:\n        alg_id = u32be_len_input(header[\"alg\"])\n        bit_size = key_size\n    else:\n        alg_id = u32be_len_input(header[\"enc\"])\n        bit_size = cek_size\n",
+  "    id_member, bit_size = (\"alg\", key_size) if key_size else (\"enc\", cek_size)\n    alg_id = u32be_len_input(header[id_member])\n")
